@@ -110,5 +110,6 @@ def encOrWire (p : Packet) : Out Bytes :=
   | .rrr v => if v.WF then .ok (render (rrr v)) else p.enc
   | .pli v => if v.WF then .ok (render (pli v)) else p.enc
   | .fir v => if v.WF then .ok (render (fir v)) else p.enc
-  | _ => p.enc      -- SLI: known finding KF-SLI-PT (the library emits PT 205); REMB/TWCC/CCFB/XR: model encoder
+  | .sli v => if v.WF then .ok (render (sli v)) else p.enc   -- differs from the library (PT 205): known finding sli-packet-type
+  | _ => p.enc      -- REMB/TWCC/CCFB/XR: model encoder
 end Rtcp.Spec
